@@ -345,7 +345,7 @@ def check(chk: Check) -> None:
                 continue  # a statement generator has no bindings
             for n in n_shapes:
                 jobs.append((entry, pt, n))
-    workers = min(16, os.cpu_count() or 1)
+    workers = min(int(os.environ.get("JSTAT_WORKERS", "16")), os.cpu_count() or 1)
     chunks = [jobs[i::workers * 4] for i in range(workers * 4)]
     results: list[dict] = []
     if workers > 1 and not os.environ.get("JSTAT_SERIAL"):
